@@ -46,3 +46,14 @@ U.fn(F, 'extract_doc_comments',
                    why='str::starts_with / trim_start_matches / trim_start; ASSUMED: Some(text without the leading slashes and blanks) iff the token text starts with `//`'),
               dict(rx=r'comments\.into_iter\(\)\.rev\(\)\.collect::<Vec<_>>\(\)\.join\("\\n"\)', name='o_join_reversed', sig='(comments: Vec<String>) -> (ret: String)', call='o_join_reversed(comments)',
                    ensures=['ret@ == join_nl(rev_views(comments@))'], why='into_iter().rev().collect().join("\\n"); ASSUMED: the strings in reverse order joined by line feeds')])
+
+# hover::exec: the doc comment is read from the parse of the file the DECLARATION lies in (define_loc.file), at the declaration's range
+LOC = 'sig_loc(&db_sm(db), pos)'
+TREE = 'tree_of(db, ' + LOC + '.file)'
+U.fn(F, 'extract_symbol_signature', attrs=['external_body'],
+     ensures=['ret matches Some(x) ==> x.1 == sig_loc(symbol_map, pos)'])
+U.fn(F, 'exec',
+     ensures=[C('ret matches Some(h) ==> decl_first(&' + TREE + ', ' + LOC + '.range) >= 0 ==> (h.document matches Some(d) ==> d@ == doc_text(&' + TREE + ', ' + LOC + '.range))',
+                name='the doc text shown is the one above the declaration, read from the tree of the file the declaration lies in'),
+              C('ret matches Some(h) ==> decl_first(&' + TREE + ', ' + LOC + '.range) >= 0 ==> (h.document is None ==> doc_text(&' + TREE + ', ' + LOC + '.range).len() == 0)',
+                name='no doc text only when the declaration has none')])
